@@ -344,7 +344,9 @@ func rgbEncoder(w io.Writer, val any, _ *[8]byte) error {
 
 // rgbDecoder decodes RGB bytes into a Color.
 func rgbDecoder(r io.Reader, val any, _ *[8]byte, l uint64) error {
-	if v, ok := val.(*Color); ok {
+	// The record is exactly three bytes long: any other length would leave
+	// the rest of the stream to be parsed from the wrong offset.
+	if v, ok := val.(*Color); ok && l == 3 {
 		return ReadElements(r, &v.R, &v.G, &v.B)
 	}
 
